@@ -335,6 +335,14 @@ def _unchanged(t, before, what, result=None):
             result.add_metadata({ids[0]: {"k": "edited", "added": 1}},
                                 axis=axis)
         result.del_metadata(keys=["grp", "n"], axis="whole")
+        # ... nor does rewriting its values in place, along either axis
+        # (first along the axis its current layout serves in place)
+        order_ = ("observation", "sample") \
+            if result.matrix_data.format == "csr" else \
+            ("sample", "observation")
+        for axis in order_:
+            result.transform(lambda v, i, md: v * 2 + 1, axis=axis,
+                             inplace=True)
         # ... nor does renaming the result's IDs in place (to names of the
         # same width: ID arrays may be written in place)
         for axis in ("observation", "sample"):
